@@ -150,10 +150,10 @@ def kani(P, u, prop):
         for f in vs:
             m = f.s("ord", "method")
             if partial:
-                c = "%s(x%d, y%d)" % (m, f.idx, f.idx) if m else "x%d.partial_cmp(y%d)" % (f.idx, f.idx)
+                c = "%s(x%d, y%d)" % (m, f.idx, f.idx) if m else "PartialOrd::partial_cmp(x%d, y%d)" % (f.idx, f.idx)
                 stm.append("match %s { Some(Ordering::Equal) => {}, o => return o }" % c)
             else:
-                c = "%s(x%d, y%d)" % (m, f.idx, f.idx) if m else "x%d.cmp(y%d)" % (f.idx, f.idx)
+                c = "%s(x%d, y%d)" % (m, f.idx, f.idx) if m else "Ord::cmp(x%d, y%d)" % (f.idx, f.idx)
                 stm.append("match %s { Ordering::Equal => {}, o => return o }" % c)
         fin = "Some(Ordering::Equal)" if partial else "Ordering::Equal"
         arms.append("(%s, %s) => { %s %s }" % (P.pat(v, "x"), P.pat(v, "y"), " ".join(stm), fin))
